@@ -186,7 +186,7 @@ func (h *simpleHooks) Call(in *sym.Interp, fr *sym.Frame, site ssa.CallInstructi
 	} else if rs.Len() > 1 {
 		rt = rs
 	}
-	in.Emit(fr, "opaquecall", site, callee.Name(), args, fr.Mem())
+	in.Emit(fr, "opaquecall", site, callee.Name(), canonArgs(callee, args), fr.Mem())
 	if rt == nil {
 		return true, nil
 	}
